@@ -28,11 +28,11 @@ ASSUMPTIONS = [
     "snap grid up to rounding so that the nearest-fraction decision is unaffected; numeric tokens are compared by value "
     "(relative 1e-9), all other characters exactly",
     "repr(float) is an oracle: a numeric token is accepted when it parses (decimal grammar) to the modelled value; "
-    "round(float(beat), 2) is accepted when it is a two-decimal numeral within 0.005 of the modelled beat",
+    "round(float(beat), 6) (six decimals since /repo 6b5cf38, two before) is accepted when it is a six-decimal numeral within 0.0000005 of the modelled beat",
     "write->read->write idempotence and the read-back are checked on the implementation in Python (numeric tokens by value); "
     "the denotation of the written text is checked in Coq by the reference interpreter sm_denote",
-    "the bound used off the exact regime is 1/96 beat at the local tempo plus 0.005 beat times the tempo difference at every "
-    "tempo change (the writer prints tempo beats with two decimals)",
+    "the bound used off the exact regime is 1/96 beat at the local tempo plus 0.0000005 beat times the tempo difference at every "
+    "tempo change (the writer prints tempo beats with six decimals)",
 ]
 TRUSTED = ["harness/tables/sm.py (live SMConst / METRONOME / MAX_SNAP / MAX_KEYS / chart-type tables)"]
 MANIFEST = dict(
@@ -43,7 +43,7 @@ MANIFEST = dict(
          "elsewhere when no two notes share a cell; padding rows are keys wide for every key count; #TAG:value items and #SELECTABLE are "
          "read back as written; the OLD header/padding behaviours are refuted by real witnesses. WHOLE FILE, proved for ALL mapsets of two decidable domains "
          "(Formats/SMWriteDom.v, stated through the timing SPEC functions beats_at/time_of, not the writer's output). c03_domb: tame "
-         "text fields, #OFFSET = first tempo point, tempo rows = ms form of an on-grid metronome-4 script with distinct two-decimal beats, "
+         "text fields, #OFFSET = first tempo point, tempo rows = ms form of an on-grid metronome-4 script with distinct six-decimal beats (the writer prints round(beat, 6)), "
          "all charts literally the same rows, supported type, columns in range, holds > 0 and disjoint per column, every event time on the "
          "snap grid of the active tempo, no two events with equal column and beat, TRUE lcm of every measure <= 384. "
          "C03_sm_write_denotes: the writer succeeds and EVERY text that renders its tokens exactly is well-formed and its sm_denote has "
@@ -52,11 +52,17 @@ MANIFEST = dict(
          "form write_spec 0 true. C03_sm_write_cap_bound (c03_cap_domb: only 'no two objects in one written cell', more than 384 rows "
          "allowed): same conclusion except that each object is read at the time of row floor(position*rows), whose beat wb satisfies "
          "wb <= beat < wb + 4/384. Non-vacuity examples for both domains with literal rendered texts. The runner evaluates the exact "
-         "theorem's conclusion on the implementation's text for every generated case inside c03_domb. Not proved: positive rendering "
-         "tolerance, tempo beats that are not two-decimal (bound evaluated per run), binary64 rounding.",
+         "theorem's conclusion on the implementation's text for every generated case inside c03_domb. READ-BACK (C03 o C02, "
+         "C03_sm_write_read_back_partial): for every mapset in c03_domb and every exact rendering of its tokens that lies in the reader's "
+         "decidable domain c02_domb, SMMapSet.read returns the same charts (header fields, per kind the same objects as a permutation, the "
+         "same #OFFSET); the hypothesis c02_domb(text) is not derived from c03_domb (missing lemma written_text_in_reader_domain, see "
+         "docs/C03.md) - its writer-dependent part (reader dialect, header items, rows a multiple of 4) is evaluated by the runner on every "
+         "text the implementation wrote for a mapset in c03_domb. Not proved: positive rendering tolerance, tempo beats that are not "
+         "six-decimal (bound evaluated per run), binary64 rounding.",
     note="Trusted: Coq kernel+VM, generator/serialiser, table translator, repr(float) as a value oracle; binary64 rounding measured not proved. "
          "Former findings sm-selectable-no (16f3fe3), sm-pad-width (d872b70), rate-offset-unscaled (0398fe5) are fixed; the old "
-         "behaviours survive only as named OLD variants for the _refuted witnesses; the runner accepts the current behaviour only.",
+         "behaviours survive only as named OLD variants for the _refuted witnesses; the runner accepts the current behaviour only. "
+         "Model follows /repo 6b5cf38 (#BPMS beats printed with six decimals: token TRnd2 = six-decimal numeral within half a millionth).",
     technique="Coq proof over executable model + vm_compute correspondence against the implementation + reference interpreter",
     design="4/C03")
 
